@@ -60,12 +60,25 @@ class KlongContext():
         self._min_ctx_count = len(system_contexts)
         self._strict_mode = strict_mode
 
+    def _take_call_frame(self):
+        # .module is itself a call: its frame (x, .f) is on top of the scope stack and has to end with that call,
+        # so the scope a module switch opens goes below it
+        if len(self._context) > self._min_ctx_count and in_map(reserved_dot_f_symbol, self._context[0]):
+            return self._context.popleft()
+        return None
+
     def start_module(self, name):
+        frame = self._take_call_frame()
         self.push(KGModule(name))
         self._min_ctx_count = len(self._context)
+        if frame is not None:
+            self.push(frame)
 
     def stop_module(self):
+        frame = self._take_call_frame()
         self.push({})
+        if frame is not None:
+            self.push(frame)
 
     def current_module(self):
         return self._module
